@@ -56,6 +56,11 @@ Definition agree (o : option (list Z * bool)) (c : case) : bool :=
   match o with Some (l, cl) => lz_eqb l (observed c) && Bool.eqb cl (closed c) | None => false end.
 Definition model_ok (c : case) : bool :=
   let p := N.to_nat (par c) in
+  if N.eqb (mode c) 3 then
+    (* volume runs (1..N, N up to 200000): the machine is not executed - its answer is the left fold whatever the
+       schedule (ForkFoldProofs.fork_fold_eq) - only the fold itself is computed *)
+    (0 <? p)%nat && lz_eqb (observed c) [left_fold c] && closed c
+  else
   (0 <? p)%nat
   && fits (m_combine (monoid c)) (input c) (m_empty (monoid c))       (* harness precondition *)
   && Z.eqb (loop c) (left_fold c)                                     (* Go's arithmetic = Z arithmetic here *)
